@@ -972,7 +972,8 @@ def judge(res, case, ob, drv):
         bad = "is a valid configuration and must be accepted"
     if bad:
         got = "was accepted" if pi == "ok" else f"raised {ob['exc']}: {ob['msg']}"
-        tail = _probe_encode(case) if (pi == "ok" and spec != "accept") else ""
+        # (in a worker process: the parent must stay free of rtflite / polars state — common.fork_safe)
+        tail = common.isolated(_probe_encode, case) if (pi == "ok" and spec != "accept") else ""
         if pi == "ok" and spec != "accept" and case["kind"] == "doc" and ob.get("stage") == "done":
             # "no document object and no RTF string": say what the accepted object then did
             if ob.get("encoded"):
